@@ -267,6 +267,34 @@ def run(rep, drv):
 		steps = []
 		for step in range(rng.randint(2, 6)):
 			avail = [t for t in need if all(a in attrs for a in need[t]) and t != attrs.get('type')]
+			if hist is not None and attrs.get('type') == 'CD' and len(attrs['probabilities']) >= 2 and rng.random() < .4:
+				# the list attributes edited IN PLACE (the object keeps the same list): two probabilities swapped, or one demand value moved
+				i_, j_ = rng.sample(range(len(attrs['probabilities'])), 2)
+				if rng.random() < .6 and attrs['probabilities'][i_] != attrs['probabilities'][j_]:
+					hist.probabilities[i_], hist.probabilities[j_] = hist.probabilities[j_], hist.probabilities[i_]
+					attrs['probabilities'] = list(hist.probabilities); change = {'in_place': 'probabilities[%d]<->[%d]' % (i_, j_)}
+				else:
+					nv = max(attrs['demand_list']) + 2
+					hist.demand_list[i_] = nv
+					attrs['demand_list'] = list(hist.demand_list); change = {'in_place': 'demand_list[%d]=%d' % (i_, nv)}
+				rep.count('history:in-place-list-edit')
+				steps.append(change)
+				try:
+					with warnings.catch_warnings():
+						warnings.simplefilter('ignore')
+						fresh = DemandSource(**attrs)
+				except Exception:
+					break
+				u = rng.choice([0, 2, 3.25, 7])
+				oh = observe(hist, u); of = observe(fresh, u)
+				case = {'history': list(steps), 'u': fr(u)}
+				rep.case('attribute-history', case, nontrivial=True)
+				d = [(k2, oh[k2], of[k2]) for k2 in oh if not (oh[k2] == of[k2] or (isinstance(oh[k2], float) and isinstance(of[k2], float) and (close(oh[k2], of[k2], 1e-12) or (oh[k2] != oh[k2] and of[k2] != of[k2]))))]
+				if d:
+					bad('attribute-history', 'after the in-place edit %s the object reports %s but a fresh DemandSource with the same attributes reports %s' % (
+						steps, {a: b for a, b, _ in d[:4]}, {a: c for a, _, c in d[:4]}), case, py={'history_object': str(oh)[:600], 'fresh_object': str(of)[:600]})
+					break
+				continue
 			if hist is not None and avail and rng.random() < .5:
 				# "D" and "CD" share demand_list; UD/UC share (lo, hi); N/P share mean: switch the type only
 				change = {'type': rng.choice(avail)}
